@@ -307,6 +307,9 @@ def check_routing(ctx, F):
                     n = F.fn(ev[2])["name"]
                     if n in ("wrapPlanFailed", "wrapPlanSucceeded", "clearTasks"):
                         toks.append(n)
+                elif ev[0] == "write" and (ev[2] or "").endswith("._taskStatus.result"):
+                    # what is in the status when the head's callback starts: NONE (#0), so that the result handed on is the callback's own doing
+                    toks.append("st:=" + (ev[3] or "?"))
                 elif ev[0] == "ret":
                     r = re.sub(r"\s", "", ev[2] or "")
                     r = r.replace(",#False}", "}").replace("TaskStatus{#0}", "TaskStatus{}")
@@ -316,13 +319,14 @@ def check_routing(ctx, F):
         # FAILURE = 2, SUCCESS = 1 (checked under C06.marks)
         for s in shapes:
             if s.startswith("r2+"):
-                if s != "r2+ wrapPlanFailed ret:TaskStatus{this._taskStatus.result}":
+                if s != "r2+ st:=#0 wrapPlanFailed ret:TaskStatus{this._taskStatus.result}":
                     ok = False
             elif s.startswith("r2- r1+ plan+"):
                 if not s.endswith("ret:TaskStatus{}") or "wrapPlan" in s:
                     ok = False
             elif s.startswith("r2- r1+ plan-"):
-                if s != "r2- r1+ plan- clearTasks wrapPlanSucceeded ret:TaskStatus{this._taskStatus.result}":
+                if s not in ("r2- r1+ plan- st:=#0 clearTasks wrapPlanSucceeded ret:TaskStatus{this._taskStatus.result}",
+                             "r2- r1+ plan- clearTasks st:=#0 wrapPlanSucceeded ret:TaskStatus{this._taskStatus.result}"):
                     ok = False
             elif s.startswith("r2- r1-"):
                 if s != "r2- r1- ret:TaskStatus{}":
@@ -332,7 +336,9 @@ def check_routing(ctx, F):
         ctx.instance("C06.routing", site, {"function": site, "loc": F.floc(fid), "path_shapes": sorted(shapes)[:6]})
         if not ok:
             ctx.violation("C06.routing", site, "%s (%s)" % (site, F.floc(fid)),
-                          "updatePlan routing differs from FAILURE->planFailed | SUCCESS&tasks->execute | SUCCESS&empty->planSucceeded: %s" % sorted(shapes)[:6], {})
+                          "updatePlan routing differs from FAILURE->planFailed | SUCCESS&tasks->execute | SUCCESS&empty->planSucceeded, each callback "
+                          "started on a status of NONE (st:=#0) so that the result passed on is what the callback leaves - an overriding planFailed() that "
+                          "does not call fail() ends the matter: %s" % sorted(shapes)[:6], {})
     for cls in ("C_", "O_"):
         for fid, b in insts(F, cls, {"deepUpdatePlans"}):
             site = "%s::deepUpdatePlans" % cls
